@@ -279,6 +279,46 @@ theorem rejected_unchanged_monitor (env : Env) (s : State) (op : Op) (e : Rej) (
   rw [rejected_unchanged env s op e h]
   simp [c02_rejectedUnchanged, sameState_refl]
 
+/-! ## the executable predicate `c02_swap` the driver evaluates holds of every successful swap of the model -/
+
+theorem nodup_eraseDups {α : Type} [BEq α] [LawfulBEq α] : ∀ (l : List α), l.eraseDups.Nodup
+  | [] => by simp
+  | a :: as => by
+    rw [List.eraseDups_cons]
+    have : (as.filter fun b => !b == a).length < as.length + 1 := Nat.lt_succ_of_le (List.length_filter_le _ _)
+    refine List.nodup_cons.mpr ⟨?_, nodup_eraseDups _⟩
+    intro hmem
+    rw [List.mem_eraseDups, List.mem_filter] at hmem
+    simp at hmem
+termination_by l => l.length
+
+open Spec in
+theorem swap_conserves_monitor {env : Env} {s s' : State} {m : MsgSwap} {r : Resp} (hW : WF env s)
+    (h : swap env s m = .ok (s', r)) :
+    c02_swap { env := env, pre := s, op := .swap m, ok := true, resp := r, post := s' } = true := by
+  obtain ⟨sender, rcpt, esc, hs, hr, ⟨p, hfind, hres⟩, hpools, hseq, hall⟩ := swap_conserves h
+  have hs' := decode_ok hs
+  have hr' := decode_ok hr
+  subst hs'; subst hr'
+  obtain ⟨hmem, _⟩ := mem_of_poolByCounter hfind
+  have hesc : p.escrow = esc := by
+    have := hW.reserveOk p hmem
+    rw [hres] at this; injection this with this; exact this.symm
+  subst hesc
+  have hfind' : s.poolByCounter (if m.inDenom == s.std then m.outDenom else m.inDenom) = some p := hfind
+  obtain ⟨ht, hf, hsup⟩ := hall [m.inAddr.bytes, m.outAddr.bytes, p.escrow].eraseDups (nodup_eraseDups _)
+    (by simp) (by simp) (by simp)
+  simp only [c02_swap, swapMsgOf, parties, hfind']
+  simp only [Bool.not_true, Bool.false_or, Bool.and_eq_true, List.all_eq_true,
+    frameOutside, total, Bool.or_eq_true, beq_iff_eq]
+  refine ⟨⟨⟨?_, ?_⟩, hpools.symm⟩, hseq.symm⟩
+  · intro k _
+    cases hc : [m.inAddr.bytes, m.outAddr.bytes, p.escrow].eraseDups.contains k.1 with
+    | true => exact Or.inl rfl
+    | false => exact Or.inr (hf k.1 k.2 hc).symm
+  · intro d _
+    exact ⟨(ht d).symm, (hsup d).symm⟩
+
 /-! ## non-vacuity: each kind of message succeeds on a concrete non-trivial state -/
 
 example : (step exEnv exState exSell).toBool = true := by decide +kernel
